@@ -15,6 +15,7 @@ Oracle (model independent, on the implementation's output only): told size = W d
 import json, os, glob
 from .. import common
 
+GEN = ["leaf"]
 PROPS_MOD = "VncModel.Props.C17"
 EXTRA_TARGETS = ["drv_c17"]
 
